@@ -6,22 +6,22 @@ HOOK_COMMITS = ["db46fe7"]
 
 # id -> technique (the deciding method, in a few words)
 TECH = {
- "C03": "proptest over stdlib calls (189 functions x generated argument tuples seeded from the functions' own examples, literal / exact-typed / any-typed positions) in killable workers: result membership in the declared type, return_kind mask, infallible-typed calls never fail; failures classified by signature",
- "C05": "proptest over stdlib calls with per-call deadlines enforced on killable workers (5 s, then 20 s CPU alone) and an output-growth bound; failures classified by signature",
+ "C03": "proptest over stdlib calls (189 functions x generated argument tuples seeded from the functions' own examples, literal / exact-typed / union-typed / any-typed positions) in killable workers: result membership in the declared type, return_kind mask, infallible-typed calls never fail; failures classified by signature",
+ "C05": "proptest over stdlib calls with per-call deadlines enforced on killable workers (5 s, then 20 s CPU alone) and an output-growth bound; extreme integers, non-finite floats, deeply nested containers and texts; failures classified by signature",
  "C14": "proptest: compile-twice / other-thread equality, fresh vs cleared-and-reused Runtime after event histories, N threads sharing one Arc<Program> against a sequential baseline",
  "C34": "metamorphic proptest over deliberately sloppy programs: every unused-result warning's span is replaced by `null` and the two programs are compared on the same event",
  "C04": "mutation-based and generative proptest with a no-panic oracle over compile -> render diagnostics -> final_type_info -> run: corpus mutation (26 kinds), token soup, generated programs, stdlib calls in killable workers",
  "C12": "two-pass metamorphic proptest: definition x perturbations x constant-dependent probe; the program with the variable vs the program with the literal of its observed runtime value",
  "C15": "proptest over mutation-heavy programs x read-only path sets x events: values at read-only paths compared before/after every accepted run",
  "C16": "proptest with a logging Target wrapper: every runtime read/insert/remove path must be covered by ProgramInfo.target_queries / target_assignments",
- "C17": "fault-injection proptest (and exhaustive single-fault enumeration on source cases): Err-returning vs skipping Target wrappers must agree; root-read failure ends with an error",
+ "C17": "fault-injection proptest (and exhaustive single-fault enumeration on source cases): Err-returning vs skipping Target wrappers must agree; with every write rejected and no deletion in the program the target must stay unchanged; root-read failure ends with an error",
  "C01": "proptest over generated programs x events x external kinds (default / exact / widened): membership of result, returned value, final event/metadata and probed variables in the compiler's reported types, decided by an independent membership predicate",
  "C02": "proptest over generated `!`-free, abort-free programs x events x external kinds: no runtime error (NaN exempt), ProgramInfo consistency, and a hook recorder for infallible-typed sites that fail even when the error is swallowed",
  "C06": "differential proptest: generated programs with `return` injected at every grammar position vs reference interpreter; pinned source-level regressions",
  "C07": "differential proptest: generated programs with `abort` injected at every grammar position vs reference interpreter; pinned source-level regressions",
  "C08": "differential proptest: `??` / `ok, err =` dense programs vs reference interpreter, plus membership of the stored default in the compiler's reported type",
  "C09": "differential proptest: short-circuit/conditional programs with effectful operands and an evaluation trace vs reference interpreter",
- "C13": "differential proptest: closure calls with shadowing parameters and failing/returning bodies vs reference interpreter with save/restore semantics; final runtime state inspected",
+ "C13": "differential proptest: closure calls (for_each, filter, map_values, map_keys, replace_with) with shadowing parameters and failing/returning bodies vs reference interpreter with save/restore semantics; final runtime state inspected",
  "C20": "proptest + exhaustive enumeration of short path texts: render/parse round-trips and agreement between the VRL compiler's path and parse_target_path",
  "C30": "grammar-based proptest + token mutation: parse(to_lucene(parse(q))) == parse(q) and serde round-trip",
  "C31": "metamorphic proptest (boolean composition identities, range = conjunction of bounds, irrelevance of unaddressed fields) plus a reference evaluator for attribute and tag leaves",
